@@ -428,6 +428,7 @@ impl TCheck for C07 {
                 *slot.lock().unwrap() = rep;
             }),
             record_events: true,
+            hard_fault: false,
         }
     }
     fn history_oracle(&self, events: &[Event], _report: &BodyReport) -> Vec<String> {
